@@ -25,3 +25,19 @@ UNITS.append(Unit('backmp11.do_defer_event', ['C05', 'C18', 'C13'], 'backmp11',
                   dict(name='pool-member', pat='event_pool . cur_seq_cnt', rep='self -> event_pool . cur_seq_cnt', min=2, max=2),
                   dict(name='CONT-push-make', pat='event_pool . events . push_back ( processable_event :: make ( deferred_event < Event > { self , event , seq_cnt } ) ) ;', rep='pool_push_back_deferred ( self , event , seq_cnt ) ;', min=1, max=1)]),
     replay=['defer']))
+
+UNITS.append(Unit('backmp11.compile_policy.is_event_deferred', ['C05', 'C13'], 'backmp11',
+    Part(RS, [], 'static bool is_event_deferred ( const StateMachine & sm , const Event & event )'),
+    '_Bool is_event_deferred(const fsm_t* sm, event_t event)', 'deferred.spec.h', defines=['UNIT_IS_DEFERRED=1'],
+    xform=back_xform([], refparams=(), enums=ENUMS, drop=DROP2, pre_rewrites=[
+        dict(name='TVAR-base-set', pat='using base_visit_set = $*A ;', rep='', min=1, max=1),
+        dict(name='TVAR-visitor', pat='using visitor_t = $*A ;', rep='', min=1, max=1),
+        dict(name='TVAR-minimal-set', pat='using minimal_visit_set = $*A ;', rep='', min=1, max=1),
+        dict(name='TVAR-state-visitor', pat='using state_visitor = $*A ;', rep='', min=1, max=1),
+        dict(name='SCOPE-needs-1', pat='base_visit_set :: needs_traversal :: value', rep='g_needs_traversal_1', min=1, max=1),
+        dict(name='SCOPE-needs-2', pat='minimal_visit_set :: needs_traversal :: value', rep='g_needs_traversal_2', min=1, max=1),
+        dict(name='visitor-object', pat='visitor_t visitor { event } ;', rep='vis_t visitor ; visitor . m_result = VISITOR_DEFAULT_RESULT ; visitor . m_event = event ;', min=1, max=1),
+        dict(name='SCOPE-visit', pat='state_visitor :: visit ( sm , visitor ) ;', rep='event_deferral_visit ( sm , & visitor ) ;', min=0, max=1),
+        dict(name='visitor-result', pat='visitor . result ( )', rep='visitor . m_result', min=0, max=1)]),
+    file_scope='#define VISITOR_DEFAULT_RESULT 0   /* is_event_deferred_visitor_base: bool m_result{false} (must_contain pattern) */\n',
+    must_contain=[('backmp11/detail/state_visitor.hpp', 'bool result ( ) const { return m_result ; } protected : bool m_result { false } ;')], replay=['defer']))
